@@ -149,6 +149,7 @@ def run_config(c, col):
                 col.reachable(ctx)
                 first = False
             thr, pz, out, FORMAT, INFO, COLUMN = pr.value
+            path_model = E.model_dict(E.prove(ctx, False).model)  # a point on this path: what the replay runs
             alts = list(out.columndata[COLUMN.ALT])
             masked = bool(out.infodata[INFO.REFMASKED])
             listed = [tuple("AC".index(ch) for ch in a) for a in alts]
@@ -161,7 +162,7 @@ def run_config(c, col):
                     dose[(h, s)] = z3.Sum([p * g.count(list(h)) for g, p in zip(gs, pz[s])] + [z3.RealVal(0)])
             w0 = dict(scenario=c["scenario"], alts=alts, refmasked=masked)
             if len(set(listed)) != len(listed) or (0, 0) in listed:
-                col.fail(site, "alt-duplicates-or-ref", shape=shape, witness=w0, desc="ALT lists a haplotype twice or lists the reference")
+                col.fail(site, "alt-duplicates-or-ref", shape=shape, witness=w0, desc="ALT lists a haplotype twice or lists the reference", model=path_model)
             for h in universe:
                 # a haplotype absent from a sample's posterior support has no posterior there (threshold 0 included)
                 meets = z3.Or([occ[(h, s)] >= thr for s, gs in zip(samples, scen) if any(list(h) in g for g in gs)] + [z3.BoolVal(False)])
@@ -186,7 +187,7 @@ def run_config(c, col):
                 nn = [a for a in gt if a >= 0]
                 ok = ok and nn == sorted(nn) and gt == nn + [-1] * (ploidy - len(nn)) and bool(called)
                 if not ok:
-                    col.fail(site, "gt-form", shape=shape, witness=ws, desc="GT malformed: wrong length / uses masked allele 0 / not sorted with '.' last / not the projection of one of the sample's genotypes")
+                    col.fail(site, "gt-form", shape=shape, witness=ws, desc="GT malformed: wrong length / uses masked allele 0 / not sorted with '.' last / not the projection of one of the sample's genotypes", model=path_model)
                 else:
                     col.ok("GT has ploidy entries, sorted with '.' last, never the masked reference, and is the projection of a genotype of the sample")
                     # the called genotype is the mode genotype of the mode support: its GPM must be that genotype's probability
@@ -197,7 +198,7 @@ def run_config(c, col):
                     afp = out.sampledata[FORMAT.AFP][s]
                     aop = out.sampledata[FORMAT.AOP][s]
                     if len(afp) != n_all or len(aop) != n_all:
-                        col.fail(site, "r-length", shape=shape, witness=ws, desc="AFP/AOP length != number of alleles")
+                        col.fail(site, "r-length", shape=shape, witness=ws, desc="AFP/AOP length != number of alleles", model=path_model)
                     else:
                         cl_ = []
                         for i in range(n_all):
